@@ -38,9 +38,12 @@ func Check() *engine.Check {
 			"re-signing by the genuine key, HS256/384/512 keyed by PEM/DER/JWK/raw public key, kid removed/swapped/unknown, foreign key with " +
 			"same kid, jwk/jku/x5u header injection, extra/missing segments, padding, JSON serialisations, duplicate claims, ECDSA DER / " +
 			"malleable / r=s=n signatures); the full product exp(11) x nbf(6) x iat(5) around now +- leeway +- 1 s and the full product " +
-			"iss(8) x aud(9) x scopes(12), all signed by the genuine key. A case is non-trivial when the token is structurally a JWS (three " +
+			"iss(8) x aud(10) x scopes(20), all signed by the genuine key. A case is non-trivial when the token is structurally a JWS (three " +
 			"base64url segments, JSON header with a string alg, JSON payload) so that key selection, algorithm agreement, signature or claim " +
-			"validation decides, and it is not a byte-for-byte re-encoding of the valid token; distinct = distinct (scenario, token string).",
+			"validation decides, and it is not a byte-for-byte re-encoding of the valid token; distinct = distinct (scenario, token string). " +
+			"Two providers: every sequence of 1-3 (authenticator, token) pairs over two jwt authenticators whose providers serve different keys " +
+			"under the same path and kid on different hosts, with one shared cache, HTTP response caching on and off: accepted exactly if signed " +
+			"by and issued for the authenticator's own provider.",
 		Assumptions: []string{
 			"validity boundaries follow RFC 7519 with the leeway applied: rejected iff now-leeway >= exp or now+leeway < nbf (clock frozen at env.T0)",
 			"don't-care (either behaviour accepted, counted as outcome): no exp claim; iat in the future; verifying key declares no alg; kid " +
@@ -185,6 +188,13 @@ func run(c *engine.Ctx) {
 			}
 		}
 	}
+
+	// sequences over two identity providers sharing one cache
+	sigMemo = map[string]string{}
+	work := 0
+
+	runTwoIdPs(c, &work)
+	env.SetNow(env.T0)
 }
 
 func runScenario(c *engine.Ctx, sc Scenario) {
@@ -346,6 +356,18 @@ func evalTok(c *engine.Ctx, rt *runtime, t Tok, seen map[string]bool) {
 }
 
 func replay(c *engine.Ctx, raw json.RawMessage) {
+	var part struct {
+		Part string `json:"part"`
+	}
+
+	if json.Unmarshal(raw, &part) == nil && part.Part == "two-idps" {
+		sigMemo = map[string]string{}
+
+		replayTwoIdPs(c, raw)
+
+		return
+	}
+
 	var cs Case
 	if err := json.Unmarshal(raw, &cs); err != nil {
 		c.Infra("bad replay: %v", err)
